@@ -8,7 +8,8 @@
       VALUES, so 'digits' above 15 still compare numerically); [wf_default_hex] is the instance with
       kingdon's single-hex-digit restriction, [wf_default_pqr] the Algebra(p,q,r) instance.
       For start < 0 and d >= 1 the statement is false (generator range check fails): [wf_default_neg_start].
-   2. [wf_custom_sound] / [wf_custom_complete]: for a custom basis, [mk_custom sig basis graded]
+   2. [wf_custom_sound] / [wf_custom_char] / [wf_custom_iff]: for a custom basis, whenever
+      [mk_custom sig basis graded = Ok A], [wf_alg A = basis_ok sig basis]; and [mk_custom]
       succeeds with a well-formed algebra IFF the decidable condition [basis_ok sig basis] holds
       (one duplicate-free spelling per subset of the generators, 2^d of them, ordered by grade, the
       generator digits being start .. start+d-1 with start = the least digit, signature of length d
@@ -541,8 +542,8 @@ Proof.
       destruct (existsb (same_set n) (map fst r)) eqn:E; [|reflexivity]. exfalso. apply Hnotin.
       apply existsb_exists in E. destruct E as (m & Hm & Hs). apply in_map_iff in Hm.
       destruct Hm as ([m' b'] & Em & Hin). cbn [fst] in Em. subst m'.
-      destruct (Hr m b' Hin) as [Hmn Hmb]. apply same_set_spec in Hs.
-      apply (name_bin_eq_iff vecs n m b b' Hv Hn Hmn Hb Hmb) in Hs. subst b'.
+      destruct (Hr m b' Hin) as [Hmn Hmb]. pose proof (proj1 (same_set_spec n m) Hs) as Hs'.
+      pose proof (proj2 (name_bin_eq_iff vecs n m b b' Hv Hn Hmn Hb Hmb) Hs') as Ebb. subst b'.
       apply in_map_iff. exists (m, b). split; [reflexivity | exact Hin].
     + intros [Hex Hs]. constructor; [|apply IH; exact Hs]. intros Hin.
       apply in_map_iff in Hin. destruct Hin as ([m b'] & Eb & Hin). cbn [snd] in Eb. subst b'.
@@ -610,7 +611,7 @@ Proof.
   rewrite (wf_custom_record sig basis graded l Hl). exact Hok.
 Qed.
 
-Theorem wf_custom_complete : forall (sig : list Z) (basis : list name) (graded : bool) (A : alg),
+Theorem wf_custom_char : forall (sig : list Z) (basis : list name) (graded : bool) (A : alg),
   mk_custom sig basis graded = Ok A -> wf_alg A = basis_ok sig basis.
 Proof.
   intros sig basis graded A H. unfold mk_custom in H.
@@ -623,8 +624,13 @@ Corollary wf_custom_iff : forall (sig : list Z) (basis : list name) (graded : bo
   (exists A, mk_custom sig basis graded = Ok A /\ wf_alg A = true) <-> basis_ok sig basis = true.
 Proof.
   intros sig basis graded. split; [|apply wf_custom_sound].
-  intros (A & HA & Hwf). rewrite <- (wf_custom_complete sig basis graded A HA). exact Hwf.
+  intros (A & HA & Hwf). rewrite <- (wf_custom_char sig basis graded A HA). exact Hwf.
 Qed.
+
+Theorem wf_custom_spec : forall (sig : list Z) (basis : list name) (graded : bool),
+  (forall A, mk_custom sig basis graded = Ok A -> wf_alg A = basis_ok sig basis) /\
+  ((exists A, mk_custom sig basis graded = Ok A /\ wf_alg A = true) <-> basis_ok sig basis = true).
+Proof. intros sig basis graded. split; [apply wf_custom_char | apply wf_custom_iff]. Qed.
 
 (* non-vacuity: the bases of Algebra.fromname (2DPGA, 3DPGA, STAP) are admissible; a basis spelling
    one subset twice, or ordered against the grade, is not *)
@@ -651,5 +657,12 @@ Corollary wf_named_algebras :
   (exists A, mk_custom (sig_of_pqr 2 0 1) [[];[1];[2];[0];[2;0];[0;1];[1;2];[0;1;2]]%nat false = Ok A /\ wf_alg A = true) /\
   (exists A, mk_custom (sig_of_pqr 3 0 1)
      [[];[1];[2];[3];[0];[0;1];[0;2];[0;3];[1;2];[3;1];[2;3];[0;3;2];[0;1;3];[0;2;1];[1;2;3];[0;1;2;3]]%nat false = Ok A /\
-     wf_alg A = true).
-Proof. split; apply wf_custom_sound; [apply basis_ok_2dpga | apply basis_ok_3dpga]. Qed.
+     wf_alg A = true) /\
+  (exists A, mk_custom (sig_of_pqr 3 1 1)
+     [[];[0];[1];[2];[3];[4];[0;1];[0;2];[0;3];[4;0];[1;2];[3;1];[2;3];[4;1];[4;2];[4;3];
+      [2;3;4];[3;1;4];[1;2;4];[1;2;3];[0;1;4];[0;2;4];[0;3;4];[0;3;2];[0;1;3];[0;2;1];
+      [0;3;2;4];[0;1;3;4];[0;2;1;4];[0;1;2;3];[1;2;3;4];[0;1;2;3;4]]%nat false = Ok A /\ wf_alg A = true).
+Proof.
+  split; [|split]; apply wf_custom_sound; [apply basis_ok_2dpga | apply basis_ok_3dpga | apply basis_ok_stap].
+Qed.
+
